@@ -20,6 +20,7 @@
 #include "celeritas/global/Stepper.hh"
 #include "celeritas/phys/Primary.hh"
 #include "celeritas/user/ActionDiagnostic.hh"
+#include "celeritas/user/DetectorSteps.hh"
 #include "celeritas/user/SimpleCalo.hh"
 #include "celeritas/user/StepDiagnostic.hh"
 #include "celeritas/user/StepCollector.hh"
@@ -309,6 +310,7 @@ void ObserverAction::step(CoreParams const& params, CoreStateHost& state) const
             j["rE_E0"] = par.energy().value();
             j["rT_t0"] = sim.time();
             j["rL_lim"] = sim.step_length();
+            j["dir"] = rec.P(geo.dir());
             j["vol"] = geo.is_outside() ? 0 : int(geo.volume_id().get());
             j["volo"] = box_oracle(geo.pos());
             j["onb"] = geo.is_on_boundary();
@@ -338,6 +340,8 @@ void ObserverAction::step(CoreParams const& params, CoreStateHost& state) const
             j["rE_E1"] = par.energy().value();
             j["rT_t1"] = sim.time();
             j["rL_step"] = sim.step_length();
+            j["stept"] = rec.T(sim.step_length());
+            j["dir"] = rec.P(geo.dir());
             Real3 p1 = geo.pos();
             Real3 const& p0 = sh_->pos0[i];
             double chord = std::sqrt(ipow<2>(p1[0] - p0[0]) + ipow<2>(p1[1] - p0[1]) + ipow<2>(p1[2] - p0[2]));
@@ -460,6 +464,8 @@ class Callback final : public StepInterface
                     j["tt" + sfx] = rec.T(pt.time[ts]);
                 if (!pt.pos.empty())
                     j["pos" + sfx] = rec.P(pt.pos[ts]);
+                if (!pt.dir.empty())
+                    j["dir" + sfx] = rec.P(pt.dir[ts]);
                 if (!pt.energy.empty())
                     j["Et" + sfx] = rec.T(pt.energy[ts].value());
                 if (!pt.volume_id.empty())
@@ -468,6 +474,51 @@ class Callback final : public StepInterface
             arr.push_back(j);
         }
         ev["steps"] = arr;
+        if (has_det)
+        {
+            // the library's own compaction of in-detector steps (what a hit processor consumes)
+            DetectorStepOutput out;
+            copy_steps(&out, hs.steps);
+            json dso = json::array();
+            for (size_type k = 0; k < out.size(); ++k)
+            {
+                json j;
+                j["det"] = out.detector[k] ? int(out.detector[k].get()) : -1;
+                if (!out.track_id.empty())
+                    j["tid"] = out.track_id[k] ? int(out.track_id[k].get()) : -1;
+                if (!out.event_id.empty())
+                    j["ev"] = int(out.event_id[k].get());
+                if (!out.parent_id.empty())
+                    j["par"] = out.parent_id[k] ? int(out.parent_id[k].get()) : -1;
+                if (!out.track_step_count.empty())
+                    j["ns"] = int(out.track_step_count[k]);
+                if (!out.step_length.empty())
+                    j["stept"] = rec.T(out.step_length[k]);
+                if (!out.particle.empty())
+                    j["pt"] = int(out.particle[k].get());
+                if (!out.energy_deposition.empty())
+                {
+                    j["dept"] = rec.T(out.energy_deposition[k].value());
+                    j["depq"] = rec.Q(out.energy_deposition[k].value());
+                }
+                char const* names[2] = {"0", "1"};
+                for (auto sp : range(StepPoint::size_))
+                {
+                    auto const& pt = out.points[sp];
+                    std::string sfx = names[int(sp)];
+                    if (!pt.time.empty())
+                        j["tt" + sfx] = rec.T(pt.time[k]);
+                    if (!pt.pos.empty())
+                        j["pos" + sfx] = rec.P(pt.pos[k]);
+                    if (!pt.dir.empty())
+                        j["dir" + sfx] = rec.P(pt.dir[k]);
+                    if (!pt.energy.empty())
+                        j["Et" + sfx] = rec.T(pt.energy[k].value());
+                }
+                dso.push_back(j);
+            }
+            ev["dso"] = dso;
+        }
         sh_->pending_deliver.push_back(std::move(ev));
     }
     void process_steps(DeviceStepState) final {}
